@@ -30,7 +30,8 @@ CLS = {'HS': 'HardSphere', 'HCLJ': 'HardCoreLennardJones', 'EXP': 'Exponential',
 PARAMS = {
     'HS': [{}, {'high_value': 50.0}],
     'HCLJ': [{'epsilon': 0.5}, {'epsilon': -0.5}, {'epsilon': 1.3, 'high_value': 1e4}],
-    'EXP': [{'epsilon': 0.3, 'alpha': 0.5}, {'epsilon': -0.3, 'alpha': 0.5}, {'epsilon': 1.0, 'alpha': 1.5, 'high_value': 1e3}],
+    'EXP': [{'epsilon': 0.3, 'alpha': 0.5}, {'epsilon': -0.3, 'alpha': 0.5}, {'epsilon': 1.0, 'alpha': 1.5, 'high_value': 1e3},
+            {'epsilon': 0.4, 'alpha': 0.002}, {'epsilon': -0.4, 'alpha': 0.002}],      # sigma/alpha > 710: exp() overflows deep inside the core
     'LJ': [{'epsilon': 0.2}, {'epsilon': 1.0, 'rcut': 2.5}, {'epsilon': 1.0, 'rcut': 2.5, 'shift': True},
            {'epsilon': 0.2, 'rcut': 1.7, 'shift': True}, {'epsilon': -0.4, 'rcut': 3.0, 'shift': False}],
     'WCA': [{'epsilon': 0.5}, {'epsilon': 1.0}],
@@ -81,8 +82,8 @@ def compare(rec, case, name, p, r, sigma, got, how):
             continue
         if amb[i] and name in ref.HARD_CORE_POTENTIALS:
             # what the documented outside-core form gives at this point
-            outside = ref.ref_potential([name, p], np.array([r[i] + 1e-5]), sigma)[0]
-            form = 'K2' if (r[i] > sigma and abs(a - outside) <= 1e-3 * (abs(outside) + 1)) else 'other'
+            outside = ref.tail_value([name, p], float(r[i]), sigma)
+            form = 'K2' if (r[i] > sigma and abs(a - outside) <= 256 * EPS * (abs(outside) + float(mag[i]))) else 'other'
             rec.fail(dict(case, point={'i': i, 'r': float(r[i])}),
                      '%s: grid point r=%r coincides with sigma=%r (|r-sigma|<1e-6) but gets u=%r instead of the overlap value %r (%s)'
                      % (CLS[name], float(r[i]), sigma, a, b, how), tags(name, 'contact', form),
@@ -172,7 +173,7 @@ def case_eval(rec, c):
 
 
 HIST_OPS = ['sig:0.9', 'sig:1.3', 'ev:g1', 'ev:g2']
-HIST_GRIDS = {'g1': [64, 0.1], 'g2': [50, 0.07]}
+HIST_GRIDS = {'g1': [64, 0.1], 'g2': [64, 0.07]}        # equal lengths on purpose (a scratch buffer keyed on the shape would be re-used)
 
 
 def case_hist(rec, c):
@@ -183,6 +184,7 @@ def case_hist(rec, c):
     U = build.make_potential([name, dict(p, sigma=sigma) if sigma is not None else dict(p)])
     rec.state()
     doms = {g: build.make_domain({'length': v[0], 'dr': v[1]}) for g, v in HIST_GRIDS.items()}
+    held = []
     for n, op in enumerate(c['ops']):
         hist = dict(c, ops=c['ops'][:n + 1])
         kind, arg = op.split(':')
@@ -198,7 +200,8 @@ def case_hist(rec, c):
         r0 = r.copy()
         with np.errstate(all='ignore'):
             try:
-                got = np.array(U.calculate(r), dtype=float)
+                raw = U.calculate(r)
+                got = np.array(raw, dtype=float)
             except Exception as e:
                 rec.fail(hist, '%s history %s: calculate raised %s: %s' % (CLS[name], c['ops'][:n + 1], type(e).__name__, str(e)[:80]), tags(name, 'raises'))
                 return
@@ -211,6 +214,13 @@ def case_hist(rec, c):
             return
         if compare(rec, hist, name, p, r, sigma, got, 'after history %s on one object' % (c['ops'][:n + 1],)):
             return
+        # arrays handed out earlier are the caller's: a later evaluation must not change them
+        for o, snap in held:
+            if not np.array_equal(np.asarray(o, dtype=float), snap, equal_nan=True):
+                rec.fail(hist, '%s history %s: an array returned by an earlier calculate() call changed when calculate() was called again'
+                         % (CLS[name], c['ops'][:n + 1]), tags(name, 'purity'))
+                return
+        held.append((raw, np.array(raw, dtype=float, copy=True)))
     rec.trace()
     rec.outcome(core.digest([name, p, c['start'], c['ops']]))
 
@@ -321,6 +331,7 @@ def run(rec, tier, seed):
     lat = [round(0.5 + 0.1 * i, 1) for i in range(36)]
     if tier == 'quick':
         lat = lat[:16]
+    lat = lat + [0.3141592653589793, 1.122462048309373, 0.7071067811865476]      # means that are not multiples of a decimal step
     for name in CLS:
         p = params[name][0] if name != 'LJ' else params['LJ'][2]
         for dA in lat:
